@@ -366,6 +366,29 @@ func checkC12(r *Result, rng *rand.Rand, thorough bool) {
 			r.sample(map[string]string{"op": op, "granted": impl[i]})
 		}
 	}
+	// a caller without AUTH_SYS credentials (AUTH_NONE) is "nobody" (65534:65534, no auxiliary groups): its decisions
+	// are those of that identity, through HandleCall and over a connection alike
+	{
+		nn := 400
+		if thorough {
+			nn = 6000
+		}
+		pn := servePeer(e.rw, "10.7.7.8", 901)
+		for i := 0; i < nn; i++ {
+			mode, isDir, ro := rng.Intn(512), rng.Intn(2), rng.Intn(2)
+			fu, fg := []uint32{0, 1000, 65534}[rng.Intn(3)], []uint32{0, 100, 65534}[rng.Intn(3)]
+			mask := []int{0x3f, rng.Intn(64)}[rng.Intn(2)]
+			as := fmt.Sprintf("access %o %d %d 65534 65534 - %d %d %d", mode, isDir, ro, fu, fg, mask)
+			got := e.runAs(as, Cred{Flavor: 0, Raw: []byte{}}, nil)
+			accessOracle(r, as+"   [sent with AUTH_NONE]", got)
+			if ro == 0 && i%4 == 0 {
+				got2 := e.runAs(as, Cred{Flavor: 0, Raw: []byte{}}, pn)
+				accessOracle(r, as+"   [sent with AUTH_NONE over a connection]", got2)
+			}
+			r.count("auth-none")
+		}
+		pn.Close()
+	}
 	// the same decisions when the calls share one connection: a decision depends on the call's own credential,
 	// not on who else used the connection before
 	{
@@ -404,6 +427,45 @@ func checkC12(r *Result, rng *rand.Rand, thorough bool) {
 		}
 		return out
 	})
+}
+
+// runAs performs the ACCESS of a plain "access" op with the given credential instead of the op's identity; through
+// HandleCall, or over the connection p (read-write export only) when p is not nil.
+func (e *accessEnv) runAs(op string, cred Cred, p *Peer) string {
+	var mode uint32
+	var isDir, ro int
+	var eu, eg, fu, fg, mask uint32
+	var auxs string
+	if _, err := fmt.Sscanf(op, "access %o %d %d %d %d %s %d %d %d", &mode, &isDir, &ro, &eu, &eg, &auxs, &fu, &fg, &mask); err != nil {
+		return "bad-op"
+	}
+	path := "/f"
+	if isDir == 1 {
+		path = "/d"
+	}
+	e.fs.Chmod(path, os.FileMode(mode&0o777))
+	s, h := e.rw, e.fRW
+	switch {
+	case ro == 1 && isDir == 1:
+		s, h = e.ro, e.dRO
+	case ro == 1:
+		s, h = e.ro, e.fRO
+	case isDir == 1:
+		h = e.dRW
+	}
+	absnfs.VerifNodeSetOwner(s.NFS, h, fu, fg)
+	if p != nil {
+		rs, as, data, err := p.call(progNFS, 3, 4, cred, cat(fh(h), u32(mask)))
+		if err != nil || rs != 0 || as != 0 || len(data) != 4+4+84+4 || binary.BigEndian.Uint32(data) != 0 {
+			return fmt.Sprintf("error reply_stat=%d accept_stat=%d len=%d err=%v", rs, as, len(data), err)
+		}
+		return fmt.Sprint(binary.BigEndian.Uint32(data[92:]))
+	}
+	r := s.NFSCall(4, cred, cat(fh(h), u32(mask)))
+	if r.Err != nil || status(r) != 0 || len(r.Data) != 4+4+84+4 {
+		return fmt.Sprintf("error status=%d len=%d", status(r), len(r.Data))
+	}
+	return fmt.Sprint(binary.BigEndian.Uint32(r.Data[92:]))
 }
 
 // runOn sends the ACCESS of a plain "access" op (read-write export) over the given connection.
